@@ -629,7 +629,7 @@ impl<'a> Gen<'a> {
                 }
             }
             if self.profile.generic_recv && depth == 0 && self.rng.chance(1, 3) {
-                r.generics = (*self.rng.pick(&["<T>", "<'a, T, const N: usize>", "<T: Clone, U>"])).to_string();
+                r.generics = (*self.rng.pick(&["<T>", "<'a, T, const N: usize>", "<T: Clone, U>", "<W>", "<T, V>"])).to_string();
                 make_generic_friendly(&mut r);
             }
         }
@@ -743,7 +743,7 @@ impl<'a> Gen<'a> {
             r.from_ident = false;
         }
         if self.profile.generic_recv && self.rng.chance(1, 3) {
-            r.generics = (*self.rng.pick(&["<T>", "<'a, T, const N: usize>", "<T: Clone, U>"])).to_string();
+            r.generics = (*self.rng.pick(&["<T>", "<'a, T, const N: usize>", "<T: Clone, U>", "<W>", "<T, V>"])).to_string();
             make_generic_friendly(&mut r);
         }
         self.recvs[id] = r;
@@ -935,6 +935,10 @@ pub fn generic_parts(r: &Recv) -> (String, Vec<(&'static str, &'static str, &'st
         "<T>" => ("<T>".into(), vec![("", "gen_t", "Option<T>")]),
         "<'a, T, const N: usize>" => ("<'a, T, N>".into(), vec![("", "gen_t", "Option<T>"), ("#[darling(skip)] ", "gen_marker", "::core::marker::PhantomData<&'a [u8; N]>")]),
         "<T: Clone, U>" => ("<T, U>".into(), vec![("", "gen_t", "Option<T>"), ("#[darling(multiple)] ", "gen_u", "Vec<U>")]),
+        // a parameter that only a field with a custom converter mentions still needs the bound:
+        // the generated presence check asks the field type for its value-for-absent
+        "<W>" => ("<W>".into(), vec![("#[darling(with = |m: &::darling::export::syn::Meta| <Option<W> as ::darling::FromMeta>::from_meta(m))] ", "gen_w", "Option<W>")]),
+        "<T, V>" => ("<T, V>".into(), vec![("", "gen_t", "Option<T>"), ("#[darling(with = gen_none_with)] ", "gen_v", "Option<V>")]),
         _ => (String::new(), vec![]),
     }
 }
